@@ -371,6 +371,8 @@ impl Evaluator {
                 Some(s) => Val(s.1.clone()),
                 None => nothing(),
             },
+            // the reference evaluator has no input positions: not judged
+            Expr::Ctx(_) => U,
             Expr::Call { f, args } => self.call(f, args, cx),
         }
     }
